@@ -17,6 +17,13 @@ namespace PydraModel.PathTemplate
 
 abbrev Str := List Char
 
+instance {ε α} [DecidableEq ε] [DecidableEq α] : DecidableEq (Except ε α) := fun a b =>
+  match a, b with
+  | .ok x, .ok y => if h : x = y then isTrue (by rw [h]) else isFalse (fun e => h (by cases e; rfl))
+  | .error x, .error y => if h : x = y then isTrue (by rw [h]) else isFalse (fun e => h (by cases e; rfl))
+  | .ok _, .error _ => isFalse (fun e => by cases e)
+  | .error _, .ok _ => isFalse (fun e => by cases e)
+
 inductive Err
   | attributeError      -- "{z} is not provided in the input"
   | multiplePaths       -- Exception "can't have multiple paths in … template"
